@@ -399,4 +399,88 @@ theorem updateSh_ok (hs : StrictTotal lt) {b : BM K V} (hI : Inv lt b) (chain : 
         · intro r hr'; exact ⟨hr', fun e => hnr (e ▸ hr')⟩
         · intro r; exact ⟨fun hr' => ⟨hr', fun e => hnr (e ▸ hr')⟩, fun h => h.1⟩
 
+/-! ### literals accepted by `check_constraints` -/
+theorem toSet_length_le (xs : List K) : (toSet xs).length ≤ xs.length := by
+  induction xs with
+  | nil => simp [toSet]
+  | cons x xs ih =>
+    simp only [toSet]
+    split <;> simp <;> omega
+
+theorem nodup_of_toSet_length (xs : List K) (h : (toSet xs).length = xs.length) : xs.Nodup := by
+  induction xs with
+  | nil => exact List.nodup_nil
+  | cons x xs ih =>
+    simp only [toSet] at h
+    have hle := toSet_length_le xs
+    by_cases hx : x ∈ toSet xs
+    · simp only [hx, if_true, List.length_cons] at h; omega
+    · simp only [hx, if_false, List.length_cons] at h
+      exact List.nodup_cons.2 ⟨fun hm => hx ((toSet_mem xs x).2 hm), ih (by omega)⟩
+
+/-- non-decreasing by key -/
+def NonDecr {α : Type} (lt : K → K → Bool) (l : List (K × α)) : Prop := l.Pairwise (fun a b => lt b.1 a.1 = false)
+
+theorem insertByKey_nonDecr {α : Type} (hs : StrictTotal lt) (x : K × α) (acc : List (K × α)) (h : NonDecr lt acc) :
+    NonDecr lt (insertByKey lt x acc) := by
+  induction acc with
+  | nil => simp [insertByKey, NonDecr]
+  | cons y ys ih =>
+    have hy := List.pairwise_cons.1 h
+    simp only [insertByKey]
+    split
+    · rename_i hxy
+      refine List.pairwise_cons.2 ⟨?_, h⟩
+      intro z hz
+      rcases List.mem_cons.1 hz with rfl | hz
+      · cases hzx : lt z.1 x.1
+        · rfl
+        · have := hs.trans _ _ _ hxy hzx
+          rw [hs.irrefl] at this; cases this
+      · cases hzx : lt z.1 x.1
+        · rfl
+        · have h1 := hs.trans _ _ _ hzx hxy
+          rw [hy.1 z hz] at h1; cases h1
+    · rename_i hxy
+      refine List.pairwise_cons.2 ⟨?_, ih hy.2⟩
+      intro z hz
+      rcases (mem_insertByKey x z ys).1 hz with rfl | hz
+      · simpa using hxy
+      · exact hy.1 z hz
+
+theorem sortByKey_nonDecr {α : Type} (hs : StrictTotal lt) (xs : List (K × α)) : NonDecr lt (sortByKey lt xs) := by
+  have : ∀ acc : List (K × α), NonDecr lt acc → NonDecr lt (xs.foldl (fun acc x => insertByKey lt x acc) acc) := by
+    induction xs with
+    | nil => intro acc h; exact h
+    | cons x xs ih => intro acc h; exact ih _ (insertByKey_nonDecr hs x acc h)
+  exact this [] List.Pairwise.nil
+
+/-- a literal accepted by `check_constraints` gives a big map satisfying the invariant -/
+theorem fromLiteral_inv (hs : StrictTotal lt) (items : List (K × V)) (b : BM K V) (h : fromLiteral lt items = some b) :
+    Inv lt b := by
+  simp only [fromLiteral] at h
+  by_cases hc : checkConstraints lt items = true
+  · simp only [hc, if_true, Option.some.injEq] at h
+    subst h
+    simp only [checkConstraints, Bool.and_eq_true, beq_iff_eq] at hc
+    obtain ⟨h1, h2⟩ := hc
+    have hnd := nodup_of_toSet_length _ h1
+    have hs' := sortByKey_nonDecr hs ((items.map (·.1)).map fun k => (k, ()))
+    have hk : (items.map (·.1)).Pairwise (fun a b => lt b a = false) := by
+      rw [h2]
+      exact (List.pairwise_map).2 hs'
+    have hstrict : (items.map (·.1)).Pairwise (fun a b => lt a b = true) := by
+      refine (hk.and hnd).imp ?_
+      intro a c ⟨hca, hne⟩
+      rcases hs.total a c hne with h | h
+      · exact h
+      · rw [hca] at h; cases h
+    refine ⟨?_, ?_, by simp, List.nodup_nil⟩
+    · have := (List.pairwise_map).1 hstrict
+      exact (List.pairwise_map).2 this
+    · intro e he
+      obtain ⟨x, _, rfl⟩ := List.mem_map.1 he
+      simp
+  · simp [hc] at h
+
 end Proofs.C15
